@@ -66,7 +66,8 @@ class Rate1Data(BitsInterface):
             crc32 if isinstance(crc32, int) else int.from_bytes(crc32, byteorder="big")
         )
 
-        self.crc9: int = crc9 if isinstance(crc9, int) else ba2int(crc9[::-1])
+        # 9-bit CRC field is sent most significant bit first, as every other field
+        self.crc9: int = crc9 if isinstance(crc9, int) else ba2int(crc9)
         calculated_crc9 = self.calculate_crc9()
         if self.crc9 <= 0:
             self.crc9 = calculated_crc9
@@ -163,7 +164,7 @@ class Rate1Data(BitsInterface):
             # R_1_DATA PDU content for confirmed data
             return (
                 int2ba(self.dbsn, length=7)
-                + int2ba(self.crc9, length=9, endian="little")
+                + int2ba(self.crc9, length=9)
                 + bytes_to_bits(self.data)
             )
         elif self.packet_type == Rate1DataTypes.UnconfirmedLastBlock:
@@ -173,7 +174,7 @@ class Rate1Data(BitsInterface):
             # R_1_LDATA PDU content for confirmed data
             return (
                 int2ba(self.dbsn, length=7)
-                + int2ba(self.crc9, length=9, endian="little")
+                + int2ba(self.crc9, length=9)
                 + bytes_to_bits(self.data)
                 + int2ba(self.crc32, length=32)
             )
